@@ -22,6 +22,10 @@ choice, any clock), `a` over all addresses, `limit` over all `migration_limit` v
   it (`C04_catch_up`).
 
 `restore` (PUT /metadata) is not an `Op`; it is treated in C13.
+
+Both modes: `Reachable` contains the histories of a broker started with `enable_ordered_proxy = true`
+(those starting with `Op.setOrdered`, `runOrdered`); every theorem below holds for them as stated.
+In that mode a failover bumps the global epoch twice and the cluster epoch once (`demoOrdered`).
 -/
 namespace Um.Broker.C04
 open Um Um.Slots Um.Broker Um.Broker.Epoch
@@ -137,18 +141,18 @@ theorem C04_remove_unregisters (s : Store) (a : String) (hok : (removeProxy s a)
 the epoch then served for `a` exceeds every epoch served for it (at any `migration_limit`)
 at any point `t` before the removal -/
 theorem C04_reregister (t : Store) (ht : Reachable t) (ops0 ops1 : List Op) (a n0 n1 : String)
-    (host : Option String) (limit limit' : Nat) (v v3 : VProxy) :
+    (host : Option String) (index : Option Nat) (limit limit' : Nat) (v v3 : VProxy) :
     let s := ops0.foldl step t
     let s1 := step s (.removeProxy a)
     let s2 := ops1.foldl step s1
-    let s3 := step s2 (.addProxy a n0 n1 host)
+    let s3 := step s2 (.addProxy a n0 n1 host index)
     s2.findProxy a = none →
     proxyView t a limit = .ok (some v) → proxyView s3 a limit' = .ok (some v3) →
     v.epoch < v3.epoch ∧ v3.epoch = s3.globalEpoch := by
   intro s s1 s2 s3 hnone hv hv3
   have e : s2 = (ops0 ++ [Op.removeProxy a] ++ ops1).foldl step t := by
     simp [s2, s1, s, List.foldl_append]
-  have h := C04_register_fresh t ht (ops0 ++ [Op.removeProxy a] ++ ops1) (.addProxy a n0 n1 host) a
+  have h := C04_register_fresh t ht (ops0 ++ [Op.removeProxy a] ++ ops1) (.addProxy a n0 n1 host index) a
     (e ▸ hnone) limit' v3 (e ▸ hv3)
   exact ⟨h.2.2 a limit v hv, by rw [h.1, ← e]⟩
 
@@ -171,8 +175,8 @@ theorem C04_catch_up (t : Store) (ht : Reachable t) (ops : List Op) (a : String)
 
 /-- two hosts with two proxies each, one 4-node cluster, one added (slot-less) chunk -/
 def demo : List Op := [
-  .addProxy "h1:1" "n1" "n2" none, .addProxy "h1:2" "n3" "n4" none,
-  .addProxy "h2:1" "n5" "n6" none, .addProxy "h2:2" "n7" "n8" none,
+  .addProxy "h1:1" "n1" "n2" none none, .addProxy "h1:2" "n3" "n4" none none,
+  .addProxy "h2:1" "n5" "n6" none none, .addProxy "h2:2" "n7" "n8" none none,
   .addCluster "c" 4 [("h1:1", "h2:1")],
   .addNodes "c" 4 [("h1:2", "h2:2")]]
 
@@ -212,12 +216,31 @@ example : ∃ v v', proxyView (run demo) "h1:1" 1 = .ok (some v) ∧
     proxyView (step (run demo) (.balance "c")) "h1:1" 1 = .ok (some v') ∧ v.epoch = 6 ∧ v'.epoch = 7 :=
   ⟨_, _, rfl, rfl, rfl, rfl⟩
 -- re-registration: `h3:1` is added (epoch 7), removed (8), added again: served 9
-example : ∃ v v3, proxyView (step (run demo) (.addProxy "h3:1" "x" "y" none)) "h3:1" 0 = .ok (some v) ∧
-    proxyView (step (step (step (run demo) (.addProxy "h3:1" "x" "y" none)) (.removeProxy "h3:1"))
-      (.addProxy "h3:1" "x2" "y2" none)) "h3:1" 0 = .ok (some v3) ∧ v.epoch = 7 ∧ v3.epoch = 9 :=
+example : ∃ v v3, proxyView (step (run demo) (.addProxy "h3:1" "x" "y" none none)) "h3:1" 0 = .ok (some v) ∧
+    proxyView (step (step (step (run demo) (.addProxy "h3:1" "x" "y" none none)) (.removeProxy "h3:1"))
+      (.addProxy "h3:1" "x2" "y2" none none)) "h3:1" 0 = .ok (some v3) ∧ v.epoch = 7 ∧ v3.epoch = 9 :=
   ⟨_, _, rfl, rfl, rfl, rfl⟩
-example : (removeProxy (step (run demo) (.addProxy "h3:1" "x" "y" none)) "h3:1").2 = .ok () := rfl
+example : (removeProxy (step (run demo) (.addProxy "h3:1" "x" "y" none none)) "h3:1").2 = .ok () := rfl
 example (v : VProxy) (h : v.epoch = 6) (w : VProxy) (hw : w.epoch = 7) : accept v w = w := by
   simp [accept, h, hw]
+
+/-- ordered-proxy mode: two proxies with indices 0, 1 on one host, one cluster -/
+def demoOrdered : List Op := [
+  .setOrdered,
+  .addProxy "h1:1" "n1" "n2" none (some 0), .addProxy "h1:2" "n3" "n4" none (some 1),
+  .addCluster "c" 4 [("h1:1", "h1:2")]]
+
+example : (run demoOrdered).ordered = true ∧ (run demoOrdered).globalEpoch = 3 := by decide
+example : EpochInv (run demoOrdered) := C04_epochInv _ (reachable_run demoOrdered)
+-- an ordered failover (takeover + second bump, no replacement): global epoch +2, cluster epoch = global - 1
+example : (step (run demoOrdered) (.failover "h1:1" "-")).globalEpoch = 5 ∧
+    ((step (run demoOrdered) (.failover "h1:1" "-")).findCluster "c").map (·.epoch) = some 4 := by decide
+example : ∃ v v', proxyView (run demoOrdered) "h1:2" 0 = .ok (some v) ∧
+    proxyView (step (run demoOrdered) (.failover "h1:1" "-")) "h1:2" 0 = .ok (some v') ∧
+    v.epoch = 3 ∧ v'.epoch = 4 := ⟨_, _, rfl, rfl, rfl, rfl⟩
+example (v v' : VProxy) (hv : proxyView (run demoOrdered) "h1:2" 0 = .ok (some v))
+    (hv' : proxyView (step (run demoOrdered) (.failover "h1:1" "-")) "h1:2" 0 = .ok (some v')) :
+    v.epoch ≤ v'.epoch ∧ (content v ≠ content v' → v.epoch < v'.epoch) :=
+  C04_view_epoch _ (reachable_run demoOrdered) _ _ _ v v' hv hv'
 
 end Um.Broker.C04
